@@ -124,7 +124,7 @@ func readTree(root string) Files {
 }
 
 // genCLIChain produces an honest chain through CLI invocations and returns a verify scenario.
-func genCLIChain(r *Runner, rng *Rng, seq int) (Case, bool) {
+func genCLIChain(r *Runner, rng *Rng, seq int) ([]Case, bool) {
 	base := filepath.Join(scratch(), fmt.Sprintf("cli%d", seq))
 	safeRemoveAll(base)
 	work, meta, keysDir := filepath.Join(base, "work"), filepath.Join(base, "meta"), filepath.Join(base, "keys")
@@ -250,7 +250,7 @@ func genCLIChain(r *Runner, rng *Rng, seq int) (Case, bool) {
 			args = append(args, "--", "sh", "-c", script)
 			if c, o := runCLI(work, args...); c != 0 {
 				fmt.Fprintln(os.Stderr, "cli run failed:", o)
-				return Case{}, false
+				return nil, false
 			}
 		} else {
 			a1 := append([]string{"record", "start"}, common...)
@@ -258,7 +258,7 @@ func genCLIChain(r *Runner, rng *Rng, seq int) (Case, bool) {
 			a1 = append(a1, excl...)
 			if c, o := runCLI(work, a1...); c != 0 {
 				fmt.Fprintln(os.Stderr, "cli record start failed:", o)
-				return Case{}, false
+				return nil, false
 			}
 			exec.Command("sh", "-c", "cd "+shq(work)+" && "+script).Run()
 			a2 := append([]string{"record", "stop"}, common...)
@@ -266,7 +266,7 @@ func genCLIChain(r *Runner, rng *Rng, seq int) (Case, bool) {
 			a2 = append(a2, excl...)
 			if c, o := runCLI(work, a2...); c != 0 {
 				fmt.Fprintln(os.Stderr, "cli record stop failed:", o)
-				return Case{}, false
+				return nil, false
 			}
 		}
 		matRules := []any{}
@@ -309,7 +309,7 @@ func genCLIChain(r *Runner, rng *Rng, seq int) (Case, bool) {
 	}
 	if c, o := runCLI(base, "sign", "-f", unsigned, "-k", ownerPriv, "-o", signedPath); c != 0 {
 		fmt.Fprintln(os.Stderr, "cli sign failed:", o)
-		return Case{}, false
+		return nil, false
 	}
 	// `sign --verify` must report the library's answer
 	for _, kp := range []struct {
@@ -322,11 +322,90 @@ func genCLIChain(r *Runner, rng *Rng, seq int) (Case, bool) {
 				Args: map[string]any{"key": kp.path}, ImplOut: c, ModelOut: kp.want, Note: "`in-toto sign --verify` exit status does not reflect whether the key signed the file"})
 		}
 	}
+	// ---- capture everything into a verify scenario (called for the honest state and after tampering) ----
+	capture := func(tamper string, verifierKey, extraKey *TestKey) Case {
+		layoutText, _ := os.ReadFile(signedPath)
+		dirFiles := readDirFiles(linkDirArg)
+		sigTable(r, w, string(layoutText), allKeys)
+		for n, t := range dirFiles {
+			if strings.HasSuffix(n, ".link") {
+				sigTable(r, w, str(t), allKeys)
+			}
+		}
+		// certificates as they appear in the signatures the tool wrote (the model looks them up by their text)
+		for _, t := range dirFiles {
+			var m struct {
+				Signatures []struct {
+					Cert string `json:"cert"`
+				} `json:"signatures"`
+			}
+			if json.Unmarshal([]byte(str(t)), &m) != nil {
+				continue
+			}
+			for _, sg := range m.Signatures {
+				fk, ok := leafPEMs[strings.TrimSpace(sg.Cert)]
+				if sg.Cert == "" || !ok {
+					continue
+				}
+				blk, _ := pem.Decode([]byte(sg.Cert))
+				if blk == nil {
+					continue
+				}
+				c, err := x509.ParseCertificate(blk.Bytes)
+				if err != nil {
+					continue
+				}
+				ck := map[string]any{"keyid": fk.ID, "keytype": fk.Pub.KeyType, "scheme": fk.Pub.Scheme, "public": fk.Pub.KeyVal.Public, "private": "", "certificate": sg.Cert}
+				w.Certs[sg.Cert] = map[string]any{"key": ck, "info": certInfo(c, true)}
+				w.addKeyMaterial(ck)
+			}
+		}
+		for _, k := range append(allKeys, verifierKey) {
+			w.addKeyMaterial(keyJSON(k, false))
+		}
+		ci := []any{}
+		for _, p := range callerInters {
+			ci = append(ci, p)
+		}
+		vk := keyJSON(verifierKey, false)
+		vk["mapkey"] = verifierKey.ID
+		vkeys := []any{vk}
+		pubPEM := func(k *TestKey) string {
+			der, _ := x509.MarshalPKIXPublicKey(k.Signer.Public())
+			return string(pem.EncodeToMemory(&pem.Block{Type: "PUBLIC KEY", Bytes: der}))
+		}
+		morePEMs := []any{}
+		if extraKey != nil {
+			w.addKeyMaterial(keyJSON(extraKey, false))
+			ek := keyJSON(extraKey, false)
+			ek["mapkey"] = extraKey.ID
+			if rng.Bool() {
+				vkeys = append(vkeys, ek)
+			} else {
+				vkeys = []any{ek, vk}
+			}
+			morePEMs = append(morePEMs, pubPEM(extraKey))
+		}
+		fs := readTree(work)
+		vpubDER, _ := x509.MarshalPKIXPublicKey(verifierKey.Signer.Public())
+		args := map[string]any{
+			"layout_text": string(layoutText), "keys": vkeys, "more_verifier_pub_pems": morePEMs, "dir": map[string]any{"files": dirFiles, "subs": map[string]any{}}, "step_name": "",
+			"params": map[string]any{}, "caller_inters": ci, "honest": tamper == "none", "entry": "plain", "rundir_state": "ok", "rundir": "", "marker": marker,
+			"fs": fs.contents(), "fs_digests": fs.digests(), "line_norm": false, "world": w.JSON(), "now_ns": int64(0),
+			"verifier_pub_pem": string(pem.EncodeToMemory(&pem.Block{Type: "PUBLIC KEY", Bytes: vpubDER})), "links_in_workdir": !metaFlag,
+		}
+
+		ft := append(append([]string{}, feat...), "tamper:"+tamper)
+		return Case{Op: "cliverify", Args: args, Feat: strings.Join(ft, ",")}
+	}
+	// every chain is first verified as it is: files produced by the tools for an honest supply chain
+	// are ACCEPTED, whatever is tampered with afterwards (seeded change
+	// c20-record-stop-swaps-lstrip-exclude was visible in a quarter of the chains only)
+	honestCase := capture("none", owner, nil)
 	// ---- single tampering ----
 	verifierKey := owner
 	var extraKey *TestKey
 	tamper := rng.Pick([]string{"none", "none", "none", "product", "link", "layout", "wrongkey", "extrawrongkey", "extrawrongkey", "droplink", "renamelink", "extrafile"})
-	feat = append(feat, "tamper:"+tamper)
 	linkFiles, _ := filepath.Glob(filepath.Join(linkDirArg, "*.link"))
 	sort.Strings(linkFiles)
 	switch tamper {
@@ -394,78 +473,10 @@ func genCLIChain(r *Runner, rng *Rng, seq int) (Case, bool) {
 	case "extrafile":
 		os.WriteFile(filepath.Join(work, "intruder.bin"), []byte("x"), 0o644)
 	}
-	// ---- capture everything into a verify scenario ----
-	layoutText, _ := os.ReadFile(signedPath)
-	dirFiles := readDirFiles(linkDirArg)
-	sigTable(r, w, string(layoutText), allKeys)
-	for n, t := range dirFiles {
-		if strings.HasSuffix(n, ".link") {
-			sigTable(r, w, str(t), allKeys)
-		}
+	if tamper == "none" {
+		return []Case{honestCase}, true
 	}
-	// certificates as they appear in the signatures the tool wrote (the model looks them up by their text)
-	for _, t := range dirFiles {
-		var m struct {
-			Signatures []struct {
-				Cert string `json:"cert"`
-			} `json:"signatures"`
-		}
-		if json.Unmarshal([]byte(str(t)), &m) != nil {
-			continue
-		}
-		for _, sg := range m.Signatures {
-			fk, ok := leafPEMs[strings.TrimSpace(sg.Cert)]
-			if sg.Cert == "" || !ok {
-				continue
-			}
-			blk, _ := pem.Decode([]byte(sg.Cert))
-			if blk == nil {
-				continue
-			}
-			c, err := x509.ParseCertificate(blk.Bytes)
-			if err != nil {
-				continue
-			}
-			ck := map[string]any{"keyid": fk.ID, "keytype": fk.Pub.KeyType, "scheme": fk.Pub.Scheme, "public": fk.Pub.KeyVal.Public, "private": "", "certificate": sg.Cert}
-			w.Certs[sg.Cert] = map[string]any{"key": ck, "info": certInfo(c, true)}
-			w.addKeyMaterial(ck)
-		}
-	}
-	for _, k := range append(allKeys, verifierKey) {
-		w.addKeyMaterial(keyJSON(k, false))
-	}
-	ci := []any{}
-	for _, p := range callerInters {
-		ci = append(ci, p)
-	}
-	vk := keyJSON(verifierKey, false)
-	vk["mapkey"] = verifierKey.ID
-	vkeys := []any{vk}
-	pubPEM := func(k *TestKey) string {
-		der, _ := x509.MarshalPKIXPublicKey(k.Signer.Public())
-		return string(pem.EncodeToMemory(&pem.Block{Type: "PUBLIC KEY", Bytes: der}))
-	}
-	morePEMs := []any{}
-	if extraKey != nil {
-		w.addKeyMaterial(keyJSON(extraKey, false))
-		ek := keyJSON(extraKey, false)
-		ek["mapkey"] = extraKey.ID
-		if rng.Bool() {
-			vkeys = append(vkeys, ek)
-		} else {
-			vkeys = []any{ek, vk}
-		}
-		morePEMs = append(morePEMs, pubPEM(extraKey))
-	}
-	fs := readTree(work)
-	vpubDER, _ := x509.MarshalPKIXPublicKey(verifierKey.Signer.Public())
-	args := map[string]any{
-		"layout_text": string(layoutText), "keys": vkeys, "more_verifier_pub_pems": morePEMs, "dir": map[string]any{"files": dirFiles, "subs": map[string]any{}}, "step_name": "",
-		"params": map[string]any{}, "caller_inters": ci, "honest": tamper == "none", "entry": "plain", "rundir_state": "ok", "rundir": "", "marker": marker,
-		"fs": fs.contents(), "fs_digests": fs.digests(), "line_norm": false, "world": w.JSON(), "now_ns": int64(0),
-		"verifier_pub_pem": string(pem.EncodeToMemory(&pem.Block{Type: "PUBLIC KEY", Bytes: vpubDER})), "links_in_workdir": !metaFlag,
-	}
-	return Case{Op: "cliverify", Args: args, Feat: strings.Join(feat, ",")}, true
+	return []Case{honestCase, capture(tamper, verifierKey, extraKey)}, true
 }
 
 func cliverifyImpl(a map[string]any) any {
@@ -604,7 +615,7 @@ func runC20(r *Runner, tier string, rng *Rng) {
 	flush := func() { r.RunCases(batch); batch = batch[:0] }
 	n := tierN(tier, 40, 800)
 	for i := 0; i < n; i++ {
-		c, ok := genCLIChain(r, rng, i)
+		cs, ok := genCLIChain(r, rng, i)
 		if !ok {
 			r.St.Count("cli_production_failed")
 			r.St.Violations = append(r.St.Violations, Violation{Property: "C20", Kind: "input", Seed: r.Seed, Index: i, Op: "cli-production",
@@ -612,7 +623,7 @@ func runC20(r *Runner, tier string, rng *Rng) {
 			continue
 		}
 		r.St.Count("chains")
-		batch = append(batch, c)
+		batch = append(batch, cs...)
 		if len(batch) >= 10 {
 			flush()
 		}
@@ -641,7 +652,7 @@ func runC20(r *Runner, tier string, rng *Rng) {
 		batch = append(batch, Case{Op: "climatch", Args: map[string]any{"files": files, "products": products, "local": local}, Feat: fmt.Sprintf("clmp:%d:%d", len(files), len(products))})
 	}
 	flush()
-	r.St.Rule = "supply chains of 1-3 steps carried out by invoking the built binary: `run` or `record start`/`record stop` per step (with and without --use-dsse and a metadata directory, in a third of the chains with the working directory named by its absolute path plus several --lstrip-paths prefixes; a third of the Metablock steps are authorized by a certificate constraint and run with --key and --cert, with root / layout-intermediate / caller-intermediate chains), `key id` (compared with the independently computed id), `sign` and `sign --verify` (owner key and a foreign key), then one tampering out of {none, product, link, layout, wrong layout key, the right layout key plus one that never signed, dropped link, renamed link, extra file}; all files are captured and `in-toto verify` (exit status) is compared with in-process library verification and with the model's verdict for the same files, and untampered histories must be ACCEPTED; `match-products` output and exit status vs the model. Class = (steps, modes, wrapper, tampering, verdict)."
+	r.St.Rule = "supply chains of 1-3 steps carried out by invoking the built binary: `run` or `record start`/`record stop` per step (with and without --use-dsse and a metadata directory, in a third of the chains with the working directory named by its absolute path plus several --lstrip-paths prefixes; a third of the Metablock steps are authorized by a certificate constraint and run with --key and --cert, with root / layout-intermediate / caller-intermediate chains), `key id` (compared with the independently computed id), `sign` and `sign --verify` (owner key and a foreign key), each chain is verified as produced (must be ACCEPTED) and again after one tampering out of {none, product, link, layout, wrong layout key, the right layout key plus one that never signed, dropped link, renamed link, extra file}; all files are captured and `in-toto verify` (exit status) is compared with in-process library verification and with the model's verdict for the same files, and untampered histories must be ACCEPTED; `match-products` output and exit status vs the model. Class = (steps, modes, wrapper, tampering, verdict)."
 }
 
 var _ = ed25519.Sign
